@@ -12,8 +12,11 @@ import (
 
 	"github.com/anishathalye/porcupine"
 
+	"github.com/zitadel/saml/pkg/provider/key"
 	"verif/harness/core"
+
 	"verif/harness/env"
+	"verif/harness/keys"
 	"verif/harness/reply"
 	"verif/harness/sim"
 	"verif/harness/spsim"
@@ -77,7 +80,7 @@ func c01Sequential(r *core.Run, idx int, rng *rand.Rand) {
 		sc.Done = false
 	case "done":
 		// late failures after the gate
-		switch (idx / 3) % 6 {
+		switch (idx / 3) % 7 {
 		case 1:
 			late = "user_unknown"
 		case 2:
@@ -89,6 +92,8 @@ func c01Sequential(r *core.Run, idx int, rng *rand.Rand) {
 			sc.Opts.SigAlg, sc.Opts.NoSigAlg = []string{"", "urn:unknown:alg", "http://www.w3.org/2001/04/xmldsig-more#rsa-md5"}[rng.Intn(3)], true
 		case 5:
 			late = "app_unknown"
+		case 6:
+			late = "key_mismatch"
 		}
 	}
 	e := sc.build()
@@ -118,6 +123,9 @@ func c01Sequential(r *core.Run, idx int, rng *rand.Rand) {
 		}
 	case "app_unknown":
 		e.W.ForgetApp(sc.S.AppID)
+	case "key_mismatch":
+		// certificate and private key that do not belong together (e.g. read in the middle of a key rotation)
+		e.W.RespKey = &key.CertificateAndKey{Certificate: keys.Get("idp_meta").CertDER, Key: keys.Get("idp_resp").RSA}
 	}
 	// id placement
 	id := sc.S.ID
@@ -186,6 +194,10 @@ func c01Sequential(r *core.Run, idx int, rng *rand.Rand) {
 		r.Count("success_replies", 1)
 		if why := completionObserved(call, supplied); why != "" {
 			viol("success_without_completion", why)
+		}
+		// the late failures (user lookup, signing) must end in a non-Success reply
+		if ev := call.First("AuthRequestByID"); late != "" && ev != nil && len(ev.Args) == 1 && ev.Args[0] == sc.S.ID {
+			viol("success_despite_late_failure", "Success response although the "+late+" failure was injected for this session")
 		}
 		// whose data is it? the session the observation was made for
 		if strings.Contains(d.FullText(), "UMK") {
